@@ -318,6 +318,11 @@ def initialize_lua(ctx: "Wtp") -> None:
     def filter_attribute_access(
         obj: Any, attr_name: str, is_setting: bool
     ) -> str:
+        # Lua code may call the Python helpers it is given, but not look
+        # inside them: the attributes of a functools.partial or a bound
+        # method lead to the context object (database, Lua runtime).
+        if callable(obj):
+            raise AttributeError("access denied")
         if isinstance(attr_name, str) and not attr_name.startswith("_"):
             return attr_name
         raise AttributeError("access denied")
